@@ -142,7 +142,7 @@ func ValidateAggregateAndProof(ctx context.Context, signedAgg *phase0.SignedAggr
 	if err != nil {
 		return nil, GossipValidatorResult{REJECT, fmt.Errorf("failed to deserialize aggregate signature: %v", err)}
 	}
-	if !blsu.Verify(blsPub, sigRoot[:2], sig) {
+	if !blsu.Verify(blsPub, sigRoot[:], sig) {
 		return nil, GossipValidatorResult{REJECT, errors.New("invalid aggregate signature")}
 	}
 
